@@ -30,20 +30,22 @@ pub fn prop() -> Prop {
          fragments over a fixed valid schema, with undefined fields / types, sub-selections on leaves and \
          type-system definitions. Built chunk by chunk (SchemaBuilder::parse / ExecutableDocument::builder) vs \
          from the concatenation c1+\"\\n\"+...+ck: equal serialization, equal ==, equal order-sensitive walk, equal \
-         multiset of diagnostic messages (locations stripped). (b) the first p extensions that follow a type's \
-         (or the schema's) definition are moved in front of it, sibling order preserved: same three comparisons. \
+         SEQUENCE of diagnostic messages (diagnostic.error.to_string(), i.e. without file name, line or snippet). (b) the first p extensions that follow a type's \
+         (or the schema's) definition are moved in front of it, sibling order preserved (1-3 synthesized extensions of the same or another kind, and schema \
+         extensions, are added so that several can move): same comparisons, diagnostics as a multiset (their \
+         locations, hence their order, legitimately change). \
          Non-trivial: (a) >=2 chunks and a name defined/extended in two chunks or referenced across chunks \
          (for executable: colliding operation/fragment names, a spread of a fragment of another chunk, an anonymous \
          operation plus any operation in another chunk); (b) always (an extension moved). Distinct by rendered case.",
     )
-    .random("chunked-schema", check_chunks_schema, |t| if t == Tier::Quick { 60_000 } else { 800_000 }, |t| if t == Tier::Quick { 1200 } else { 1600 })
-    .random("chunked-executable", check_chunks_exec, |t| if t == Tier::Quick { 80_000 } else { 1_000_000 }, |t| if t == Tier::Quick { 400 } else { 800 })
-    .random("moved-extension", check_moved, |t| if t == Tier::Quick { 60_000 } else { 800_000 }, |t| if t == Tier::Quick { 1200 } else { 1600 })
+    .random("chunked-schema", check_chunks_schema, |t| if t == Tier::Quick { 60_000 } else { 1_200_000 }, |t| if t == Tier::Quick { 1200 } else { 1600 })
+    .random("chunked-executable", check_chunks_exec, |t| if t == Tier::Quick { 80_000 } else { 1_600_000 }, |t| if t == Tier::Quick { 400 } else { 800 })
+    .random("moved-extension", check_moved, |t| if t == Tier::Quick { 60_000 } else { 1_200_000 }, |t| if t == Tier::Quick { 1200 } else { 1600 })
     .text(check_text)
     .assumptions(&[
         "chunks are grammatical and non-empty; a shorthand query never directly follows a definition that may be continued by `{` (the concatenation would parse differently); the concatenation is re-parsed by the reference parser and must give the same definition list, otherwise the case is skipped",
         "only extensions that FOLLOW the (first) definition of their name are moved, to positions between their last earlier sibling extension and the definition; built-in type names are never targets",
-        "diagnostics are compared as multisets of `diagnostic.error.to_string()` (message without file/line)",
+        "diagnostics are compared through `diagnostic.error.to_string()` (message without file/line/snippet): as a sequence for chunked vs concatenated builds (SchemaBuilder::build sorts by (file id, offset), file ids are allocated in parse order; the executable builder reports in traversal order), as a multiset for moved extensions",
         "executable documents are built against one fixed valid schema, or without a schema",
     ])
 }
@@ -385,10 +387,10 @@ fn collisions(c: &mut Choices, defs: &mut Vec<Definition>, k: usize) -> Vec<&'st
 }
 
 /// A type-system definition list and a label for its source.
-fn ts_defs(c: &mut Choices) -> (Vec<Definition>, &'static str, Vec<&'static str>) {
+fn ts_defs(c: &mut Choices, max_types: usize) -> (Vec<Definition>, &'static str, Vec<&'static str>) {
     let (mut defs, source, muts) = match c.weighted(&[45, 35, 20]) {
         0 => {
-            let (doc, _) = schema_ext::rich_schema(c, 2);
+            let (doc, _) = schema_ext::rich_schema(c, max_types);
             let mut defs = doc.defs;
             let muts = if c.bool(215) {
                 let k = 1 + c.small(2);
@@ -720,7 +722,7 @@ fn chunk_case(defs: Vec<Definition>, source: &'static str, exec: bool, p: &Plan,
 pub fn check_chunks_schema(bytes: &[u8], ctx: &mut Ctx) -> Outcome {
     let mut c = Choices::new(bytes);
     let p = plan(&mut c);
-    let (defs, source, muts) = ts_defs(&mut c);
+    let (defs, source, muts) = ts_defs(&mut c, if ctx.tier == Tier::Quick { 2 } else { 3 });
     for m in muts {
         ctx.class(format!("mutation:{m}"));
     }
@@ -758,9 +760,9 @@ fn compare_moved(orig_text: &str, moved_text: &str, ctx: &mut Ctx) -> Outcome {
 pub fn check_moved(bytes: &[u8], ctx: &mut Ctx) -> Outcome {
     let mut c = Choices::new(bytes);
     // decisions about the move are drawn first so that a short stream does not starve them
-    let pre = c.bytes(10);
+    let pre = c.bytes(24);
     let mut pc = Choices::new(&pre);
-    let (mut defs, source, muts) = ts_defs(&mut c);
+    let (mut defs, source, muts) = ts_defs(&mut c, if ctx.tier == Tier::Quick { 2 } else { 3 });
     // executable definitions are irrelevant here and could interact with open-ended definitions
     defs.retain(|d| !d.is_executable());
     ctx.class(format!("source:{source}"));
@@ -795,13 +797,30 @@ pub fn check_moved(bytes: &[u8], ctx: &mut Ctx) -> Outcome {
         if !tdefs.is_empty() {
             let i = tdefs[pc.choose(tdefs.len())];
             if let Definition::Type(t) = &defs[i] {
-                let kind = if pc.bool(100) { pc.pick(&TypeKind::ALL) } else { t.kind };
-                let e = synth_ext(&mut pc, kind, &t.name.clone());
-                let at = i + 1 + pc.choose(defs.len() - i);
-                defs.insert(at, Definition::Type(e));
+                let (name, def_kind) = (t.name.clone(), t.kind);
+                // one to three extensions after the definition, of its kind or not
+                let k = 1 + pc.weighted(&[55, 28, 17]);
+                for _ in 0..k {
+                    let kind = if pc.bool(90) { pc.pick(&TypeKind::ALL) } else { def_kind };
+                    let e = synth_ext(&mut pc, kind, &name);
+                    let at = i + 1 + pc.choose(defs.len() - i);
+                    defs.insert(at, Definition::Type(e));
+                }
             }
-            cands = candidates(&defs);
         }
+        // schema extensions after an explicit schema definition
+        if let Some(i) = defs.iter().position(|d| matches!(d, Definition::Schema(s) if !s.is_ext)) {
+            if pc.bool(110) {
+                let k = 1 + pc.choose(2);
+                for _ in 0..k {
+                    let roots = if pc.bool(80) { vec![(pc.pick(&OpType::ALL), pc.pick(&["Query", "A", "Obj0"]).to_string())] } else { vec![] };
+                    let e = SchemaDef { is_ext: true, description: None, directives: vec![Directive { name: "tag".into(), args: vec![("n".into(), Value::Int(pc.choose(4).to_string()))] }], roots };
+                    let at = i + 1 + pc.choose(defs.len() - i);
+                    defs.insert(at, Definition::Schema(e));
+                }
+            }
+        }
+        cands = candidates(&defs);
     }
     if cands.is_empty() {
         ctx.set_sample(printer::print_document(&Document { defs }));
